@@ -13,7 +13,8 @@ THEOREMS = [
     "BSVerif.Props.C09.reader_conforms",
     "BSVerif.Props.C10.readSolidBlock_refines",
     "BSVerif.Props.C10.history_refines",
-    "BSVerif.Props.C20.fallible_dtors_are_the_recorded_ones",
+    "BSVerif.Props.C20.dtors_cannot_let_exceptions_escape",
+    "BSVerif.Props.C20.no_terminate",
     "BSVerif.Props.C02.depth_unbounded_refuted",
     "BSVerif.Props.C02.prealloc_unbounded_refuted",
 ]
